@@ -170,6 +170,12 @@ class CacheDict(UserDict):
     ...
 
 
+_ABSENT = object()
+"""
+Marks "no entry" where None may be a stored value.
+"""
+
+
 @dataclass
 class IndexedCache:
     """
@@ -309,14 +315,15 @@ class IndexedCache:
 
         if key in assignment:
             # Entries stored under the concrete value and entries stored under the wildcard both match.
-            concrete = cache.get(assignment[key])
-            wildcard = cache.get(All)
-            if concrete is None and wildcard is None:
+            # (a stored output may be None: absence is told by a sentinel, not by the value)
+            concrete = cache.get(assignment[key], _ABSENT)
+            wildcard = cache.get(All, _ABSENT)
+            if concrete is _ABSENT and wildcard is _ABSENT:
                 self.search_count += 1
                 return
-            if concrete is not None:
+            if concrete is not _ABSENT:
                 yield from self._yield_result(assignment, concrete, key_idx, result)
-            if wildcard is not None:
+            if wildcard is not _ABSENT:
                 yield from self._yield_result(assignment, wildcard, key_idx, copy(result))
         else:
             # Explore all branches at this level (wildcard included), copying only the minimal delta
